@@ -337,10 +337,10 @@ def run(cfg):
     R.rule('R1', '0 <= i < registrySize at every ZoneRegistryBroker::zoneInfo(i)', floor=14)
     R.rule('R1-conv', 'no narrowing integral conversion in the search functions can wrap', floor=14)
     R.rule('R1-term', 'every loop of the search functions has a ranking function', floor=8)
-    R.rule('R2', 'an index is returned only under comparison == 0 at that index; other exits return kInvalidIndex', floor=6)
-    R.rule('R2-dir', 'the half discarded by the binary search agrees with the order isSorted() tests', floor=2)
+    R.rule('R2', 'every look-up returns the index of the entry that equals the query, else kInvalidIndex (interpreted on abstract registries of 0..9 entries in several orders)', floor=6)
+    R.rule('R2-dir', 'the binary search finds every present name and no absent one on every sorted abstract registry', floor=2)
     R.rule('R2-sorted', 'the binary search is reached only on paths where mIsSorted holds', floor=2)
-    R.rule('R2-cover','isSorted() answers true only after comparing every adjacent pair of the registry in order', floor=2)
+    R.rule('R2-cover', 'isSorted() answers true exactly for the non-empty ascending abstract registries', floor=2)
     R.rule('R3', 'ZoneManagerImpl wrappers pass registrar results unchanged; null maps to TimeZone::forError()', floor=8)
     insts = sorted({f.inst for f in lib.funcs.get(REG + '::binarySearchByName', []) if f.inst != 'primary'})
     if len(insts) < 2:
@@ -371,10 +371,6 @@ def run(cfg):
                 facts.append(('0', f.params[1][0], -lowb))
             ai, hk = analyse(R, lib, f, f.params[1][0], {}, facts)
             R.analysed['functions'].append('%s [%s]' % (f.name, tag))
-            if name != 'isSorted':
-                returns_rule(R, lib, f, ai, f.params[1][0], inv)
-            else:
-                sorted_cover(R, lib, f, f.params[1][0])
         for name in ('getZoneInfoForIndex', 'getZoneInfoForName', 'getZoneInfoForId', 'findIndexForName', 'findIndexForId'):
             f = lib.fn(REG + '::' + name, inst)
             s = dict(summ)
@@ -383,9 +379,105 @@ def run(cfg):
             R.analysed['functions'].append('%s [%s]' % (f.name, tag))
             if name.startswith('findIndex'):
                 delegate_rule(R, lib, f)
-        found_rule(R, lib, inst, tag)
+        search_eval(R, lib, inst, tag, inv)
     manager_rules(R, lib)
     return R
+
+
+def search_eval(R, lib, inst, tag, inv):
+    """The look-ups are interpreted (E-SEQ, typed) on abstract registries: entries are records with a name and an id, names
+    are ranks (so that the string comparators are the sign of a difference - their only abstraction; the brokers and the
+    flash-read macros are interpreted through their bodies), sizes 0..9, in sorted order and in several other orders, and
+    every present name, every absent name between / before / after the entries, present and absent ids.  Decided: each
+    search returns the index of the entry that equals the query, else kInvalidIndex; never reads outside the registry (a
+    subscript outside the abstract array ends the interpretation) and always terminates (step budget); isSorted() answers
+    true exactly for the non-empty ascending registries; findIndexForName() agrees with both on every registry."""
+    import itertools
+    import random
+    from .aeval import AEval, AObj, CxxModule, Raised
+    mod = CxxModule(lib, ['ace_time::'])
+
+    def sgn(ev, recv, args):
+        a, b = args
+        return (a > b) - (a < b)
+    intr = {'strcmp_P': sgn, 'ace_common::strcmp_PP': sgn, 'strcmp': sgn}
+
+    def fn(name, nparams=None):
+        fs = [f for f in lib.fns(REG + '::' + name, inst) if (nparams is None or len(f.params) == nparams)]
+        if not fs:
+            raise AnalysisError('anchor vanished: %s::%s [%s]' % (REG, name, tag))
+        return fs[0]
+
+    def call(f, args, recv=None):
+        """-> value, or ('fault', text)"""
+        try:
+            ev = AEval(module=mod, intrinsics=intr, typed=True, max_steps=20000)
+            ns = CxxModule._Fn(f)
+            return ev.call_function(f.name, list(args), recv=recv, chosen=ns)
+        except IndexError:
+            return ('fault', 'reads outside the registry')
+        except AnalysisError as ex:
+            if 'step budget' in str(ex) or 'does not terminate' in str(ex):
+                return ('fault', 'does not terminate')
+            raise
+    lin, bsr, lid, srt = fn('linearSearchByName'), fn('binarySearchByName'), fn('linearSearchById'), fn('isSorted', 2)
+    fin, fid = fn('findIndexForName'), fn('findIndexForId')
+    thorough = R.cfg.tier == 'thorough'
+    rng = random.Random(R.cfg.seed or 0)
+    maxn = 11 if thorough else 9
+    counts = {'R2': 0, 'R2-dir': 0, 'R2-cover': 0}
+    first = {}
+
+    def note(rule, construct, loc, text):
+        first.setdefault((rule, construct), (loc, text))
+    for n in range(0, maxn + 1):
+        ranks = [2 * i for i in range(n)]
+        orders = [list(ranks)]
+        if n >= 2:
+            orders.append(list(reversed(ranks)))
+            for _ in range(4 if thorough else 2):
+                p = list(ranks)
+                rng.shuffle(p)
+                orders.append(p)
+            sw = list(ranks)
+            sw[-1], sw[-2] = sw[-2], sw[-1]
+            orders.append(sw)               # sorted except for the last pair
+        for order in orders:
+            reg = [AObj({'name': r, 'zoneId': 1000 + r}, oid='z%d' % r) for r in order]
+            is_sorted = n >= 1 and all(order[i] <= order[i + 1] for i in range(n - 1))
+            counts['R2-cover'] += 1
+            got = call(srt, [reg, n])
+            if (got if isinstance(got, tuple) else bool(got)) != is_sorted:
+                note('R2-cover', '%s:return-true' % srt.name, srt.loc, 'isSorted() answers %s for a registry of %d entries whose names are in the order %s'
+                     % (got[1] if isinstance(got, tuple) else bool(got), n, order))
+            registrar = AObj({'mRegistrySize': n, 'mZoneRegistry': reg, 'mIsSorted': 1 if is_sorted else 0}, oid='registrar', cls=REG,
+                             ftypes={'mRegistrySize': (16, False), 'mIsSorted': (8, False)})
+            for q in [-1] + [r + d for r in ranks for d in (0, 1)]:
+                want = order.index(q) if q in order else inv
+                searches = [(lin, 'R2', '%s:found' % lin.name, [reg, n, q], None), (fin, 'R2', '%s:return' % fin.name, [q], registrar)]
+                if is_sorted:
+                    searches.append((bsr, 'R2-dir', '%s:direction' % bsr.name, [reg, n, q], None))
+                for f_, rule, c, args, recv in searches:
+                    counts[rule] += 1
+                    got = call(f_, args, recv)
+                    if got != want:
+                        note(rule, c, f_.loc, '%s on a registry of %d entries with names in the order %s, query %s: %s, expected %s'
+                             % (f_.name.split('::')[-1], n, order, 'rank %d' % q, got[1] if isinstance(got, tuple) else ('index %d' % got if got != inv else 'not found'),
+                                ('index %d' % want) if want != inv else 'not found'))
+            for zid in [0, 0xFFFFFFFF] + [1000 + r for r in ranks] + [1001 + r for r in ranks[:2]]:
+                want = order.index(zid - 1000) if (zid - 1000) in order else inv
+                for f_, c, args, recv in ((lid, '%s:found' % lid.name, [reg, n, zid], None), (fid, '%s:return' % fid.name, [zid], registrar)):
+                    counts['R2'] += 1
+                    got = call(f_, args, recv)
+                    if got != want:
+                        note('R2', c, f_.loc, '%s on a registry of %d entries, id %d: %s, expected %s'
+                             % (f_.name.split('::')[-1], n, zid, got[1] if isinstance(got, tuple) else ('index %d' % got if got != inv else 'not found'),
+                                ('index %d' % want) if want != inv else 'not found'))
+    for rule, c, loc in (('R2', '%s:found' % lin.name, lin.loc), ('R2', '%s:found' % lid.name, lid.loc), ('R2', '%s:return' % fin.name, fin.loc),
+                         ('R2', '%s:return' % fid.name, fid.loc), ('R2-dir', '%s:direction' % bsr.name, bsr.loc), ('R2-cover', '%s:return-true' % srt.name, srt.loc)):
+        R.instance(rule, c, loc, '[%s] %d interpreted look-ups' % (tag, counts[rule]), n=max(1, counts[rule] // 4))
+        if (rule, c) in first:
+            R.violation(rule, c, first[(rule, c)][0], '[%s] %s' % (tag, first[(rule, c)][1]))
 
 
 def returns_rule(R, lib, f, ai, size_var, inv):
